@@ -44,15 +44,9 @@ def modelLine (ty : String) (now : Int) (crlOk : Bool) (o : ObjRaw) (issuer : RC
     else if ty = "sop" then (validateAt digest o.obj issuer now).isSome && crlOk
     else if ty = "roa" then
       -- the address ranges come from the model's own reading of the eContent, not from the generator's facts
-      match Rpki.Roa.decodeContent o.obj.content with
+      match Rpki.CmsDer.roaRanges o.obj.content with
+      | some (r4, r6) => roaProcess digest o.obj r4 r6 issuer now crlOk
       | none => false
-      | some c =>
-        match Rpki.Roa.iter c.v4, Rpki.Roa.iter c.v6 with
-        | some l4, some l6 =>
-          let r4 : List RoaAddr := l4.map fun a => ⟨a.addr / 2 ^ 96, Rpki.IpDer.toMax a.addr a.len / 2 ^ 96⟩
-          let r6 : List RoaAddr := l6.map fun a => ⟨a.addr, Rpki.IpDer.toMax a.addr a.len⟩
-          roaProcess digest o.obj r4 r6 issuer now crlOk
-        | _, _ => false
     else if ty = "aspa" then
       match Rpki.Roa.decodeAspa Rpki.Consts.aspaObjMaxLen o.obj.content with
       | some a => aspaProcess digest o.obj a.customer issuer now crlOk
